@@ -17,6 +17,8 @@ Static clauses decided (necessary conditions of C30):
           parameters returns the ORIGINAL text with `$$` collapsed (no doubling when nothing is bound).
  KEY      both scanners' caches are stored under the key they are looked up with (shared rule of C05): the outcome does not
           depend on statements adapted earlier.
+ FRAGMENT in a raw_sql() fragment every occurrence of a `$expression` gets its own positional parameter (RawSQLMonad.getsql builds a fresh
+          PARAM node per occurrence).
  EVAL     Database._exec_raw_sql evaluates the compiled argument expression in the caller's globals/locals and executes the
           adapted text.
 """
@@ -159,9 +161,26 @@ def run(ctx):
     ctx.ob('C30-EVAL.expressions-evaluated-in-caller-scope', er, er.node, ok, '' if ok else '_exec_raw_sql: %s' % txt[-4:])
     ok = any('sys._getframe(frame_depth).f_globals' in t for t in txt) and any('sys._getframe(frame_depth).f_locals' in t for t in txt)
     ctx.ob('C30-EVAL.caller-frame-used-when-no-scope-given', er, er.node, ok, '' if ok else '_exec_raw_sql does not take globals/locals from the caller frame')
+    # ---------------------------------------------------------------- FRAGMENT
+    # raw_sql() fragments inside queries: every occurrence of a `$expression` is bound to its OWN parameter, numbered by its position (the value
+    # list built by RawSQL.__init__ evaluates every occurrence): in RawSQLMonad.getsql each iteration that consumes a position (`next(types)`)
+    # builds a fresh ['PARAM', (varkey, i, None), ...] node with that position -- no reuse of an earlier node for an equal expression text
+    rq = repo.fn('pony.orm.sqltranslation', 'RawSQLMonad.getsql'); g = cg.cfg(rq)
+    nexts = nodes_calling(g, lambda c: isinstance(c.func, ast.Name) and c.func.id == 'next')
+    fresh = [x for x in g.nodes if x.ast is not None and x.kind == 'stmt' and any(isinstance(l, ast.List) and l.elts and isinstance(l.elts[0], ast.Constant) and l.elts[0].value == 'PARAM'
+                                                                                  and len(l.elts) >= 2 and any(isinstance(nm, ast.Name) and nm.id == 'i' for nm in ast.walk(l.elts[1])) for l in x.walk())]
+    loops_ = [x for x in g.nodes if x.kind == 'iter']
+    ctx.need(bool(nexts) and bool(loops_), 'C30-FRAGMENT: position counter / loop not found in RawSQLMonad.getsql')
+    for nx in nexts:
+        ok = bool(fresh) and g.must_pass_after(nx, fresh, exits=loops_ + [g.exit])
+        ctx.ob('C30-FRAGMENT.each-occurrence-gets-its-own-parameter', rq, nx.ast, ok,
+               '' if ok else 'an iteration that consumes parameter position `i` can finish without building a PARAM node for that position: a repeated `$expression` is bound to '
+               'the value of its first occurrence although every occurrence was evaluated (they differ for $next(it), $x.pop(), counters)', node=nx.ast)
 
 
 MUTANTS = [
+    dict(id='C30-fr1', file='pony/orm/sqltranslation.py', fn='RawSQLMonad.getsql', old="                param_converter = provider.get_converter_by_py_type(param_type)\n                result.append(['PARAM', (monad.varkey, i, None), param_converter])",
+         new="                param = params.get(expr) if 'params' in locals() else None\n                if param is None:\n                    params = locals().get('params', {})\n                    param_converter = provider.get_converter_by_py_type(param_type)\n                    param = params[expr] = ['PARAM', (monad.varkey, i, None), param_converter]\n                result.append(param)", expect='C30-FRAGMENT'),
     dict(id='C30-s1', file='pony/orm/ormtypes.py', fn='parse_raw_sql', old="            pos = i+1 + len(expr)\n            if expr.endswith(';'): expr = expr[:-1]\n", new="            if expr.endswith(';'): expr = expr[:-1]\n            pos = i+1 + len(expr)\n", expect='C30-SCAN.siblings-scan-in-the-same-order'),
     dict(id='C30-m1', file='pony/orm/core.py', fn='adapt_sql', old='    adapted_sql_cache[(original_sql, paramstyle)] = result', new='    adapted_sql_cache[(sql, paramstyle)] = result', expect='C30-KEY'),
     dict(id='C30-m2', file='pony/orm/core.py', fn='adapt_sql', old="            if expr.endswith(';'): expr = expr[:-1]\n", new='', expect='C30-SCAN'),
